@@ -25,9 +25,11 @@ import (
 // C07 — MITM serves a valid certificate for the requested host and keeps origin verification.
 
 type c07Conn struct {
-	Host   string `json:"host"`   // CONNECT authority
-	SNI    string `json:"sni"`    // "" = none, "=" = same as host, other = that name
-	Origin string `json:"origin"` // valid | expired | wrongname | untrusted
+	Host    string `json:"host"`               // CONNECT authority
+	SNI     string `json:"sni"`                // "" = none, "=" = same as host, other = that name
+	Origin  string `json:"origin"`             // valid | expired | wrongname | untrusted
+	Early   bool   `json:"early,omitempty"`    // the ClientHello follows the CONNECT request at once, without waiting for the 200
+	PauseMs int    `json:"pause_ms,omitempty"` // the client waits this long between the CONNECT's 200 and its ClientHello
 }
 
 type c07Wave struct {
@@ -95,6 +97,11 @@ func genC07(t *tape.Tape, tier string) any {
 				c.Origins[key] = []string{"valid", "expired", "wrongname", "untrusted"}[t.Pick(6, 1, 1, 1)]
 			}
 			cn.Origin = c.Origins[key]
+			if t.Chance(1, 6) {
+				cn.PauseMs = []int{1500, 2500, 2500, 7000}[t.Intn(4)] // (2.5 s: longer than the shortest leaf validity)
+			} else if t.Chance(1, 5) {
+				cn.Early = true
+			}
 			wave.Conns = append(wave.Conns, cn)
 		}
 		c.Waves = append(c.Waves, wave)
@@ -300,15 +307,21 @@ func runC07(env *core.Env, ci any) {
 					defer raw.Close()
 					fmt.Fprintf(raw, "CONNECT %s HTTP/1.1\r\nHost: %s\r\n\r\n", cn.Host, cn.Host)
 					br := bufio.NewReader(raw)
-					m, err := h1.ReadResponse(br, "CONNECT")
-					if err != nil {
-						r.err = "CONNECT: " + err.Error()
-						return
-					}
-					r.connectSt = m.Status
-					if m.Status != 200 {
-						r.xerr = m.First("X-Forwarder-Error")
-						return
+					var early *early200Conn
+					if cn.Early {
+						early = &early200Conn{Conn: raw, br: br}
+						env.Probe("hello_sent_without_waiting_for_200")
+					} else {
+						m, err := h1.ReadResponse(br, "CONNECT")
+						if err != nil {
+							r.err = "CONNECT: " + err.Error()
+							return
+						}
+						r.connectSt = m.Status
+						if m.Status != 200 {
+							r.xerr = m.First("X-Forwarder-Error")
+							return
+						}
 					}
 					cfg := &tls.Config{InsecureSkipVerify: true}
 					switch cn.SNI {
@@ -320,10 +333,25 @@ func runC07(env *core.Env, ci any) {
 					default:
 						cfg.ServerName = cn.SNI
 					}
-					tc := tls.Client(&prefixConn{Conn: raw, r: br}, cfg)
+					if cn.PauseMs > 0 {
+						time.Sleep(time.Duration(cn.PauseMs) * time.Millisecond)
+						env.Probe("client_pauses_between_200_and_hello")
+					}
+					var under net.Conn = &prefixConn{Conn: raw, r: br}
+					if early != nil {
+						under = early
+					}
+					tc := tls.Client(under, cfg)
 					if err := tc.Handshake(); err != nil {
+						if early != nil && early.status != 0 && early.status != 200 {
+							r.connectSt, r.xerr = early.status, early.xerr
+							return
+						}
 						r.err = "handshake: " + err.Error()
 						return
+					}
+					if early != nil {
+						r.connectSt = early.status
 					}
 					r.at = time.Now()
 					st := tc.ConnectionState()
@@ -450,4 +478,29 @@ func init() {
 		Stub: stubCommon,
 		Rule: "certificate cache capacity 1..1024, cache TTL 1 s..6 h, leaf validity 2 s..24 h, optional mitm-domains include/exclude lists; 1-3 waves of 1-12 concurrent CONNECTs to DNS names (case variants), IPv4 and bracketed IPv6 literals and odd ports, with SNI equal / absent / different; between waves the fake clock jumps past the TTL and/or the validity; origins present valid, expired, wrong-name or untrusted certificates; optionally everything leaves through an HTTP or HTTPS upstream proxy (a byte relay inside the simulation). Oracle: crypto/x509 verification at the client against the MITM CA with the simulated current time and the name asked for; origin request counters; excluded hosts must show the origin's own certificate. Non-trivial = all handshakes judged. Later additions: names longer than 64 characters.",
 	})
+}
+
+// early200Conn lets a TLS client start its handshake right behind the CONNECT request: the first Read consumes the
+// proxy's reply to the CONNECT.
+type early200Conn struct {
+	net.Conn
+	br     *bufio.Reader
+	done   bool
+	status int
+	xerr   string
+}
+
+func (e *early200Conn) Read(p []byte) (int, error) {
+	if !e.done {
+		m, err := h1.ReadResponse(e.br, "CONNECT")
+		if err != nil {
+			return 0, err
+		}
+		e.done, e.status = true, m.Status
+		if m.Status != 200 {
+			e.xerr = m.First("X-Forwarder-Error")
+			return 0, io.EOF
+		}
+	}
+	return e.br.Read(p)
 }
